@@ -529,7 +529,7 @@ func main() {
 				run.OpLine(op)
 				done = append(done, op)
 				exhausted := strings.Contains(res.Panic, "random draws exhausted")
-				j := &schedx.Judge{Run: run, Seq: s, Idx: i, Ops: append([]dbx.Op{}, done...), ConsistentHistory: script != nil}
+				j := &schedx.Judge{Run: run, Seq: s, Idx: i, Ops: append([]dbx.Op{}, done...), ConsistentHistory: script != nil, Draws: draws}
 				c := schedx.ParseContext(ctx)
 				if mode == "launch" {
 					j.Launch(c, &res, exhausted)
